@@ -1,0 +1,87 @@
+//! Verification hooks. This module only exists with `--cfg cicada_verif`
+//! (see /verif/MANIFEST.json); a normal build does not contain it.
+//!
+//! 1. read-only re-exports of internal items, so that an external replay
+//!    harness can call the real functions;
+//! 2. an injectable queue of child status events which `jobc::waitpidx` and
+//!    `signals::handle_sigchld` consult instead of the kernel while it is
+//!    installed.
+use std::collections::VecDeque;
+use std::sync::Mutex;
+
+use nix::sys::signal::Signal;
+use nix::sys::wait::WaitPidFlag as WF;
+use nix::sys::wait::WaitStatus as WS;
+use nix::unistd::Pid;
+
+pub use crate::core::run_calculator;
+pub use crate::execute::run_command_line;
+pub use crate::jobc::{mark_job_as_done, mark_job_as_running, mark_job_as_stopped,
+                      mark_job_member_continued, mark_job_member_stopped,
+                      try_wait_bg_jobs, wait_fg_job, waitpidx};
+pub use crate::parsers::parser_line::{line_to_cmds, line_to_plain_tokens, parse_line,
+                                      tokens_to_line, tokens_to_redirections};
+pub use crate::shell::{do_expansion, expand_env, Shell};
+pub use crate::signals::{insert_cont_map, insert_reap_map, insert_stopped_map,
+                         killed_map_insert, pop_cont_map, pop_reap_map,
+                         pop_stopped_map, killed_map_pop};
+pub use crate::tools::is_arithmetic;
+pub use crate::types::{Command, CommandLine, CommandResult, Job, LineInfo, Tokens, WaitStatus};
+
+/// (pid, kind, value); kind: 0 exited(status) 1 signaled(sig) 2 stopped(sig) 3 continued
+pub type WaitEvent = (i32, i32, i32);
+
+lazy_static! {
+    static ref WAIT_EVENTS: Mutex<Option<VecDeque<WaitEvent>>> = Mutex::new(None);
+}
+
+/// Install (Some) or remove (None) the injected event queue.
+pub fn set_wait_events(events: Option<Vec<WaitEvent>>) {
+    if let Ok(mut g) = WAIT_EVENTS.lock() {
+        *g = events.map(VecDeque::from);
+    }
+}
+
+pub fn pending_wait_events() -> usize {
+    match WAIT_EVENTS.lock() {
+        Ok(g) => g.as_ref().map(|q| q.len()).unwrap_or(0),
+        Err(_) => 0,
+    }
+}
+
+fn to_signal(v: i32) -> Signal {
+    Signal::try_from(v).unwrap_or(Signal::SIGKILL)
+}
+
+/// Stand-in for `nix::sys::wait::waitpid`: while a queue is installed the next
+/// injected event is returned (`ECHILD` for a blocking wait on an empty queue,
+/// `StillAlive` for a non-blocking one); otherwise the real call is made.
+pub fn waitpid(pid: Pid, options: Option<WF>) -> nix::Result<WS> {
+    let next = match WAIT_EVENTS.lock() {
+        Ok(mut g) => match g.as_mut() {
+            None => None,
+            Some(q) => Some(q.pop_front()),
+        },
+        Err(_) => None,
+    };
+    match next {
+        None => nix::sys::wait::waitpid(pid, options),
+        Some(Some((p, kind, v))) => {
+            let p = Pid::from_raw(p);
+            Ok(match kind {
+                0 => WS::Exited(p, v),
+                1 => WS::Signaled(p, to_signal(v), false),
+                2 => WS::Stopped(p, to_signal(v)),
+                _ => WS::Continued(p),
+            })
+        }
+        Some(None) => {
+            let nohang = options.map(|o| o.contains(WF::WNOHANG)).unwrap_or(false);
+            if nohang {
+                Ok(WS::StillAlive)
+            } else {
+                Err(nix::Error::ECHILD)
+            }
+        }
+    }
+}
